@@ -1407,134 +1407,284 @@ func ruleQuantiserCorners(c *Ctx) {
 		return
 	}
 	rect := sig.Params().At(0)
-	// class of a corner expression: "down" / "up" / ""
-	var class func(e ast.Expr, depth int) string
-	class = func(e ast.Expr, depth int) string {
+	// Forward dataflow over the flow graph. The abstract value of a float32
+	// is a tag "down:Min.X" (the quantiser applied to that coordinate of
+	// the parameter) or "" (anything else); of a [2]float32 a pair of tags.
+	// Join keeps a tag only when both sides agree.
+	type pair [2]string
+	type state struct {
+		arr map[types.Object]pair
+		sc  map[types.Object]string
+	}
+	clone := func(st *state) *state {
+		n := &state{arr: map[types.Object]pair{}, sc: map[types.Object]string{}}
+		for k, v := range st.arr {
+			n.arr[k] = v
+		}
+		for k, v := range st.sc {
+			n.sc[k] = v
+		}
+		return n
+	}
+	constIdx := func(e ast.Expr) int {
+		if tv, ok := info.Types[e]; ok {
+			if v, ok := constInt64(tv); ok && (v == 0 || v == 1) {
+				return int(v)
+			}
+		}
+		return -1
+	}
+	var scalar func(st *state, e ast.Expr) string
+	var array func(st *state, e ast.Expr) pair
+	scalar = func(st *state, e ast.Expr) string {
 		e = ast.Unparen(e)
 		switch x := e.(type) {
-		case *ast.CompositeLit:
-			if len(x.Elts) != 2 {
-				return ""
-			}
-			kinds := [2]string{}
-			for i, el := range x.Elts {
-				call, ok := ast.Unparen(el).(*ast.CallExpr)
-				if !ok || len(call.Args) != 1 {
-					return ""
-				}
-				f := callee(info, call)
-				if f == nil {
-					return ""
-				}
-				// argument rect.Min.X / rect.Min.Y / rect.Max.X / rect.Max.Y
-				se, ok := ast.Unparen(call.Args[0]).(*ast.SelectorExpr)
-				if !ok {
-					return ""
-				}
-				axis := se.Sel.Name
-				cs, ok := ast.Unparen(se.X).(*ast.SelectorExpr)
-				if !ok {
-					return ""
-				}
-				if id, ok := ast.Unparen(cs.X).(*ast.Ident); !ok || info.ObjectOf(id) != rect {
-					return ""
-				}
-				want := "X"
-				if i == 1 {
-					want = "Y"
-				}
-				if axis != want {
-					return ""
-				}
-				switch {
-				case f.Name() == "rtreeValueDown" && cs.Sel.Name == "Min":
-					kinds[i] = "down"
-				case f.Name() == "rtreeValueUp" && cs.Sel.Name == "Max":
-					kinds[i] = "up"
-				default:
-					return ""
-				}
-			}
-			if kinds[0] == kinds[1] {
-				return kinds[0]
-			}
-			return ""
 		case *ast.Ident:
-			if depth > 2 {
+			return st.sc[info.ObjectOf(x)]
+		case *ast.IndexExpr:
+			if i := constIdx(x.Index); i >= 0 {
+				return array(st, x.X)[i]
+			}
+		case *ast.CallExpr:
+			if len(x.Args) != 1 {
 				return ""
 			}
-			obj := info.ObjectOf(x)
-			cls, n := "", 0
-			ast.Inspect(fn.Decl.Body, func(m ast.Node) bool {
-				as, ok := m.(*ast.AssignStmt)
-				if !ok || len(as.Lhs) != len(as.Rhs) {
-					return true
-				}
-				for i, l := range as.Lhs {
-					if lid, ok := ast.Unparen(l).(*ast.Ident); ok && info.ObjectOf(lid) == obj {
-						k := class(as.Rhs[i], depth+1)
-						if n == 0 {
-							cls = k
-						} else if k != cls {
-							cls = ""
-						}
-						n++
-					}
-				}
-				return true
-			})
-			return cls
+			f := callee(info, x)
+			if f == nil {
+				return ""
+			}
+			se, ok := ast.Unparen(x.Args[0]).(*ast.SelectorExpr)
+			if !ok {
+				return ""
+			}
+			cs, ok := ast.Unparen(se.X).(*ast.SelectorExpr)
+			if !ok {
+				return ""
+			}
+			if id, ok := ast.Unparen(cs.X).(*ast.Ident); !ok || info.ObjectOf(id) != rect {
+				return ""
+			}
+			switch {
+			case f.Name() == "rtreeValueDown" && cs.Sel.Name == "Min":
+				return "down:Min." + se.Sel.Name
+			case f.Name() == "rtreeValueUp" && cs.Sel.Name == "Max":
+				return "up:Max." + se.Sel.Name
+			}
 		}
 		return ""
 	}
-	n := 0
-	inspectNoLit(fn.Decl.Body, func(m ast.Node) bool {
-		r, ok := m.(*ast.ReturnStmt)
-		if !ok {
-			return true
+	array = func(st *state, e ast.Expr) pair {
+		e = ast.Unparen(e)
+		switch x := e.(type) {
+		case *ast.Ident:
+			return st.arr[info.ObjectOf(x)]
+		case *ast.CompositeLit:
+			var p pair
+			for i, el := range x.Elts {
+				k := i
+				if kv, ok := el.(*ast.KeyValueExpr); ok {
+					k = constIdx(kv.Key)
+					el = kv.Value
+				}
+				if k < 0 || k > 1 {
+					return pair{}
+				}
+				p[k] = scalar(st, el)
+			}
+			return p
 		}
-		n++
-		key := fmt.Sprintf("rtreeRect/return%d", n)
-		var lo, hi string
-		switch len(r.Results) {
-		case 2:
-			lo, hi = class(r.Results[0], 0), class(r.Results[1], 0)
-		case 0:
-			lo = class(&ast.Ident{Name: sig.Results().At(0).Name(), NamePos: r.Pos()}, 0)
-			hi = lo
-			// named results: look the objects up directly
-			for i := 0; i < 2; i++ {
-				obj := sig.Results().At(i)
-				cls, k := "", 0
-				ast.Inspect(fn.Decl.Body, func(z ast.Node) bool {
-					as, ok := z.(*ast.AssignStmt)
-					if !ok || len(as.Lhs) != len(as.Rhs) {
-						return true
+		return pair{}
+	}
+	isArr := func(t types.Type) bool { _, ok := t.Underlying().(*types.Array); return ok }
+	assign := func(st *state, l ast.Expr, r ast.Expr) {
+		l = ast.Unparen(l)
+		switch x := l.(type) {
+		case *ast.Ident:
+			o := info.ObjectOf(x)
+			if o == nil {
+				return
+			}
+			if isArr(o.Type()) {
+				if r == nil {
+					st.arr[o] = pair{}
+				} else {
+					st.arr[o] = array(st, r)
+				}
+			} else {
+				if r == nil {
+					st.sc[o] = ""
+				} else {
+					st.sc[o] = scalar(st, r)
+				}
+			}
+		case *ast.IndexExpr:
+			id, ok := ast.Unparen(x.X).(*ast.Ident)
+			if !ok {
+				return
+			}
+			o := info.ObjectOf(id)
+			p := st.arr[o]
+			if i := constIdx(x.Index); i >= 0 && r != nil {
+				p[i] = scalar(st, r)
+			} else {
+				p = pair{}
+			}
+			st.arr[o] = p
+		}
+	}
+	transfer := func(st *state, n ast.Node) {
+		switch x := n.(type) {
+		case *ast.AssignStmt:
+			if len(x.Lhs) == len(x.Rhs) && (x.Tok == token.ASSIGN || x.Tok == token.DEFINE) {
+				// right sides are evaluated against the state before the statement
+				old := clone(st)
+				for i := range x.Lhs {
+					l, r := x.Lhs[i], x.Rhs[i]
+					if lx, ok := ast.Unparen(l).(*ast.Ident); ok {
+						o := info.ObjectOf(lx)
+						if o == nil {
+							continue
+						}
+						if isArr(o.Type()) {
+							st.arr[o] = array(old, r)
+						} else {
+							st.sc[o] = scalar(old, r)
+						}
+						continue
 					}
-					for j, l := range as.Lhs {
-						if lid, ok := ast.Unparen(l).(*ast.Ident); ok && info.ObjectOf(lid) == obj {
-							kk := class(as.Rhs[j], 1)
-							if k == 0 {
-								cls = kk
-							} else if kk != cls {
-								cls = ""
+					assign(st, l, r)
+				}
+			} else {
+				for _, l := range x.Lhs {
+					assign(st, l, nil)
+				}
+			}
+		case *ast.DeclStmt:
+			if gd, ok := x.Decl.(*ast.GenDecl); ok {
+				for _, sp := range gd.Specs {
+					vs, ok := sp.(*ast.ValueSpec)
+					if !ok {
+						continue
+					}
+					for i, nm := range vs.Names {
+						if i < len(vs.Values) && len(vs.Values) == len(vs.Names) {
+							assign(st, nm, vs.Values[i])
+						} else {
+							assign(st, nm, nil)
+						}
+					}
+				}
+			}
+		case *ast.IncDecStmt:
+			assign(st, x.X, nil)
+		case *ast.RangeStmt:
+			if x.Key != nil {
+				assign(st, x.Key, nil)
+			}
+			if x.Value != nil {
+				assign(st, x.Value, nil)
+			}
+		}
+		// a variable whose address is taken or that is written in a closure is unknown from here on
+		ast.Inspect(n, func(m ast.Node) bool {
+			switch y := m.(type) {
+			case *ast.UnaryExpr:
+				if y.Op == token.AND {
+					if id, ok := ast.Unparen(y.X).(*ast.Ident); ok {
+						assign(st, id, nil)
+					}
+				}
+			case *ast.FuncLit:
+				ast.Inspect(y.Body, func(z ast.Node) bool {
+					if as, ok := z.(*ast.AssignStmt); ok {
+						for _, l := range as.Lhs {
+							if ix, ok := ast.Unparen(l).(*ast.IndexExpr); ok {
+								l = ix.X
 							}
-							k++
+							if id, ok := ast.Unparen(l).(*ast.Ident); ok {
+								assign(st, id, nil)
+							}
 						}
 					}
 					return true
 				})
-				if i == 0 {
-					lo = cls
-				} else {
-					hi = cls
+				return false
+			}
+			return true
+		})
+	}
+	join := func(a, b *state) (*state, bool) {
+		changed := false
+		for k, v := range a.arr {
+			w, ok := b.arr[k]
+			if !ok {
+				w = pair{}
+			}
+			for i := range v {
+				if v[i] != w[i] && v[i] != "" {
+					v[i] = ""
+					changed = true
 				}
 			}
+			a.arr[k] = v
 		}
-		c.check(lo == "down" && hi == "up", key, r.Pos(), "lower corner rounded down from rect.Min, upper corner rounded up from rect.Max",
-			"this return of the quantiser does not hand back {Down(rect.Min.X), Down(rect.Min.Y)} and {Up(rect.Max.X), Up(rect.Max.Y)}: an index box no longer contains the box it stands for (a point whose coordinates are not float32 values lies outside its own entry), so searches at its edge and the lower-bound ordering of NEARBY go wrong")
-		return true
-	})
+		for k, v := range a.sc {
+			if w := b.sc[k]; v != w && v != "" {
+				a.sc[k] = ""
+				changed = true
+			}
+		}
+		return a, changed
+	}
+	fg := newFlowGraph(info, fn.Decl.Body)
+	in := make([]*state, len(fg.G.Blocks))
+	in[0] = &state{arr: map[types.Object]pair{}, sc: map[types.Object]string{}}
+	work := []int{0}
+	rounds := 0
+	for len(work) > 0 && rounds < 10000 {
+		rounds++
+		bi := work[0]
+		work = work[1:]
+		b := fg.G.Blocks[bi]
+		st := clone(in[bi])
+		for _, n := range b.Nodes {
+			transfer(st, n)
+		}
+		for _, s := range b.Succs {
+			if in[s.Index] == nil {
+				in[s.Index] = clone(st)
+				work = append(work, int(s.Index))
+			} else if _, ch := join(in[s.Index], st); ch {
+				work = append(work, int(s.Index))
+			}
+		}
+	}
+	wantLo, wantHi := pair{"down:Min.X", "down:Min.Y"}, pair{"up:Max.X", "up:Max.Y"}
+	n := 0
+	for _, b := range fg.G.Blocks {
+		if in[b.Index] == nil {
+			continue
+		}
+		st := clone(in[b.Index])
+		for _, nd := range b.Nodes {
+			r, ok := nd.(*ast.ReturnStmt)
+			if !ok {
+				transfer(st, nd)
+				continue
+			}
+			n++
+			key := fmt.Sprintf("rtreeRect/return%d", n)
+			var lo, hi pair
+			switch len(r.Results) {
+			case 2:
+				lo, hi = array(st, r.Results[0]), array(st, r.Results[1])
+			case 0:
+				lo, hi = st.arr[sig.Results().At(0)], st.arr[sig.Results().At(1)]
+			}
+			c.check(lo == wantLo && hi == wantHi, key, r.Pos(), "lower corner rounded down from rect.Min, upper corner rounded up from rect.Max",
+				"this return of the quantiser does not hand back {Down(rect.Min.X), Down(rect.Min.Y)} and {Up(rect.Max.X), Up(rect.Max.Y)}: an index box no longer contains the box it stands for (a point whose coordinates are not float32 values lies outside its own entry), so searches at its edge and the lower-bound ordering of NEARBY go wrong")
+		}
+	}
 	if n == 0 {
 		c.und("returns", fn.Decl.Pos(), "rtreeRect has no return statement")
 	}
